@@ -2097,6 +2097,10 @@ func (db *DB) sync(ctx context.Context, checkpointing bool, exec *syncExecutor, 
 		result.syncedToWALEnd = false
 	}
 
+	if verifEnabled {
+		verifTrace("sync.verified", db.path)
+	}
+
 	// Determine the next sequential transaction ID.
 	txID := exec.pos.TXID + 1
 	db.setSyncDiagPhase(diagPhaseSyncOpenLTX,
